@@ -147,6 +147,43 @@ pub fn synthesize(m: &WModule, o: Opts) -> Result<Vec<(String, Vec<u8>)>, String
     Ok(out)
 }
 
+/// DWARF that describes data only (a base type and a variable of that type): no line program, no
+/// code address anywhere.  What a data-only object file carries
+pub fn data_only_sections() -> Vec<(String, Vec<u8>)> {
+    let encoding = Encoding { format: Format::Dwarf32, version: 4, address_size: 4 };
+    let mut dwarf = DwarfUnit::new(encoding);
+    let root = dwarf.unit.root();
+    let name = dwarf.strings.add(&b"data.c"[..]);
+    dwarf.unit.get_mut(root).set(gimli::DW_AT_name, AttributeValue::StringRef(name));
+    let bt = dwarf.unit.add(root, gimli::DW_TAG_base_type);
+    let n = dwarf.strings.add(&b"int"[..]);
+    {
+        let e = dwarf.unit.get_mut(bt);
+        e.set(gimli::DW_AT_name, AttributeValue::StringRef(n));
+        e.set(gimli::DW_AT_byte_size, AttributeValue::Udata(4));
+        e.set(gimli::DW_AT_encoding, AttributeValue::Encoding(gimli::DW_ATE_signed));
+    }
+    let var = dwarf.unit.add(root, gimli::DW_TAG_variable);
+    let vn = dwarf.strings.add(&b"counter"[..]);
+    {
+        let e = dwarf.unit.get_mut(var);
+        e.set(gimli::DW_AT_name, AttributeValue::StringRef(vn));
+        e.set(gimli::DW_AT_type, AttributeValue::UnitRef(bt));
+    }
+    let mut sections = Sections::new(EndianVec::new(LittleEndian));
+    if dwarf.write(&mut sections).is_err() {
+        return vec![];
+    }
+    let mut out = vec![];
+    let _ = sections.for_each(|id, data| -> Result<(), ()> {
+        if !data.slice().is_empty() {
+            out.push((id.name().to_string(), data.slice().to_vec()));
+        }
+        Ok(())
+    });
+    out
+}
+
 /// a minimal well-formed DWARF for C14's "input has DWARF" dimension
 pub fn minimal_sections(wasm: &[u8]) -> Vec<(String, Vec<u8>)> {
     match wmodel::decode(wasm) {
